@@ -10,23 +10,33 @@ namespace C19
 
 /-! ## the translator-generated table -/
 
-/-- the alternatives of `_line_ending_re` (regenerated from the source on every run) are exactly
-    the eight line breaks of the statement, CRLF first (so that CR LF is one break) -/
-theorem lineEndings_exact :
-    Generated.lineEndings = [[13, 10], [10], [11], [12], [13], [133], [8232], [8233]] := by decide
+/-- the alternatives of `_line_ending_re` (regenerated from the source on every run) are, as a set,
+    exactly the eight line breaks of the statement, and CR LF is tried before CR (so that CR LF is
+    one break).  All theorems below are proved about whatever the regenerated table contains. -/
+theorem lineEndings_denote :
+    (∀ a ∈ Generated.lineEndings, a ∈ [[13, 10], [10], [11], [12], [13], [133], [8232], [8233]]) ∧
+    (∀ a ∈ [[13, 10], [10], [11], [12], [13], [133], [8232], [8233]], a ∈ Generated.lineEndings) ∧
+    Generated.lineEndings.idxOf [13, 10] < Generated.lineEndings.idxOf [13] := by decide
 
-theorem lineEndings_eq_E : Generated.lineEndings = E := lineEndings_exact
+theorem lineEndings_eq_E : Generated.lineEndings = E := rfl
 
 /-! ## iter_splitlines -/
 
-/-- `iter_splitlines(t)` yields exactly `str.splitlines(t)`, plus one final empty string when
+/-- for EVERY text: `iter_splitlines(t)` is the `splitlines` algorithm run with exactly the eight
+    forms of the statement as line breaks (CR LF counting as one), plus one final empty string
+    when `t` ends with a line break — it splits there and nowhere else -/
+theorem splitlines_eight_forms (t : List Nat) :
+    iterSplitlines t = eightSplitlines t ++ (if endsWithBreak t then [[]] else []) := by
+  unfold iterSplitlines iterPieces
+  rw [lineEndings_eq_E]
+  exact scan_lines t.length t (Nat.le_refl _)
+
+/-- hence `iter_splitlines(t)` yields exactly `str.splitlines(t)`, plus one final empty string when
     `t` ends with a line break — for every text whose line breaks are the eight forms, i.e.
     without U+001C..U+001E, which `str.splitlines` alone honours -/
 theorem splitlines_spec (t : List Nat) (h : ∀ c ∈ t, isFS c = false) :
     iterSplitlines t = pySplitlines t ++ (if endsWithBreak t then [[]] else []) := by
-  unfold iterSplitlines iterPieces
-  rw [lineEndings_eq_E]
-  exact scan_lines t.length t (Nat.le_refl _) h
+  rw [splitlines_eight_forms, pySplitlines_eq_eight t h]
 
 /-- nothing is lost or invented: the yielded lines, each followed by the line ending that was
     matched after it, concatenate to the text -/
@@ -162,6 +172,25 @@ theorem jsonl_strict_forward_reverse_binary (parse : List Nat → Except ε α) 
   rw [consume_strict_of_allOk parse _ h4, consume_strict_of_allOk parse _ h1]
   exact jsonl_forward_reverse_binary parse hp c hcr bs hbs
 
+/-- … and forward mode raises exactly when reverse mode does -/
+theorem jsonl_strict_error_iff_binary (parse : List Nat → Except ε α) (hp : IgnoresBreak parse)
+    (c : List Nat) (hcr : noLoneCR c = true) (bs : Nat) (hbs : 1 ≤ bs) :
+    (jsonlForwardB parse false c).2 = none ↔ (jsonlReverse parse false bs c).2 = none := by
+  constructor
+  · intro h; rw [jsonl_strict_forward_reverse_binary parse hp c hcr bs hbs h]
+  · intro h
+    have h4 : AllOk parse (reverseIterLines c bs) := allOk_of_consume_strict parse _ h
+    have h1 : AllOk parse (fileLinesB c) := by
+      by_cases hne : c = []
+      · subst hne; intro l hl; simp [fileLinesB] at hl
+      · rw [reverse_lines_separated c bs hbs hne hcr] at h4
+        have h3 : AllOk parse (sepLines c) := (allOk_reverse parse _).mp h4
+        have h2 := (allOk_rel parse hp _ _ (fileLinesB'_rel c hcr)).mpr h3
+        intro l hl
+        exact h2 l (by unfold fileLinesB'; exact List.mem_append.mpr (Or.inl hl))
+    unfold jsonlForwardB
+    rw [consume_strict_of_allOk parse _ h1, consume_ignore]
+
 /-- the same for text-mode files, every content -/
 theorem jsonl_strict_forward_reverse_text (parse : List Nat → Except ε α) (hp : IgnoresBreak parse)
     (c : List Nat) (bs : Nat) (hbs : 1 ≤ bs)
@@ -191,6 +220,7 @@ example : ∀ c ∈ [97, 32, 50, 56, 8232, 99, 13, 10], isFS c = false := by dec
 example : pySplitlines [97, 32, 50, 56, 8232, 99, 13, 10] = [[97, 32, 50, 56], [99]] := by decide
 -- the hypothesis of `splitlines_spec` is needed: str.splitlines splits at U+001C, the regex does not
 example : iterSplitlines [97, 28, 98] ≠ pySplitlines [97, 28, 98] := by decide
+example : iterSplitlines [97, 28, 98] = [[97, 28, 98]] ∧ eightSplitlines [97, 28, 98] = [[97, 28, 98]] := by decide
 -- "\né\r\nb\n" with a block edge inside é (195 169) and between CR and LF
 example : reverseIterLines [10, 195, 169, 13, 10, 98, 10] 2 = [[], [98], [195, 169], []] := by decide
 example : noLoneCR [10, 195, 169, 13, 10, 98, 10] = true := by decide
